@@ -231,24 +231,6 @@ Proof.
     exists 0, 1073741824, 255, 0, 1, 2. vm_compute. repeat split; try reflexivity. discriminate.
 Qed.
 
-(* C14 (F18, after the repair): the dispatching decode_direct_bits is the portable loop in every
-   state and in both feature configurations - the assembly is only a faster way to compute it. *)
-Theorem direct_bits_dispatch_eq : forall opt buf pos range code count,
-  0 <= pos -> zlen buf < P2_63 ->
-  direct_bits_dispatch opt buf pos range code count = Ok (direct_bits_portable buf pos range code count).
-Proof.
-  intros opt buf pos range code count Hp Hlen. unfold direct_bits_dispatch.
-  destruct opt; cbn [andb]; [|reflexivity].
-  destruct (Z.ltb_spec 0 count); cbn [andb]; [|reflexivity].
-  destruct (Z.leb_spec count (Z.max 0 (zlen buf - pos))); [|reflexivity].
-  apply direct_bits_twins; lia.
-Qed.
-
-Corollary direct_bits_configurations_agree : forall buf pos range code count,
-  0 <= pos -> zlen buf < P2_63 ->
-  direct_bits_dispatch true buf pos range code count = direct_bits_dispatch false buf pos range code count.
-Proof. intros. rewrite !direct_bits_dispatch_eq by assumption. reflexivity. Qed.
-
 (* ---- the loop as written in the Rust source = the per-bit loop ------------------------------ *)
 Lemma direct_bits_loop_eq_gen : forall n d acc fuel,
   65536 <= rd_range d < P2_32 -> (5 * n + 1 <= fuel)%nat ->
@@ -285,6 +267,40 @@ Proof.
   rewrite <- (Z2Nat.id count Hc) at 2.
   rewrite direct_bits_loop_eq_gen by (cbn [rdec_of_buf rd_range]; lia).
   cbn [obind]. destruct (decode_direct_bits _ _ _) as [v d]. reflexivity.
+Qed.
+
+(* C14 (F18, after the repair): in every state a decoder can be in (range >= 2^16 is an invariant:
+   decode_bit leaves range >= 2^13 * 31 and direct bits leave range >= 2^23, see
+   [direct_bits_loop_eq]; code, pos, count and the buffer are arbitrary - valid or corrupt input,
+   inside, at or beyond the end of the chunk) the dispatching decode_direct_bits computes the
+   per-bit function of Codec/Range.v in BOTH feature configurations: the assembly is only a
+   faster way to compute it, and the portable loop alone defines what happens at the end of
+   the buffer. *)
+Theorem direct_bits_dispatch_eq : forall opt buf pos range code count,
+  0 <= pos -> zlen buf < P2_63 -> 65536 <= range < P2_32 -> 0 <= count ->
+  direct_bits_dispatch opt buf pos range code count = Ok (direct_bits_portable buf pos range code count).
+Proof.
+  intros opt buf pos range code count Hp Hlen Hr Hc. unfold direct_bits_dispatch.
+  destruct opt; cbn [andb]; [|apply direct_bits_loop_eq; assumption].
+  destruct (Z.ltb_spec 0 count); cbn [andb]; [|apply direct_bits_loop_eq; assumption].
+  destruct (Z.leb_spec count (Z.max 0 (zlen buf - pos))); [|apply direct_bits_loop_eq; assumption].
+  apply direct_bits_twins; lia.
+Qed.
+
+Corollary direct_bits_configurations_agree : forall buf pos range code count,
+  0 <= pos -> zlen buf < P2_63 -> 65536 <= range < P2_32 -> 0 <= count ->
+  direct_bits_dispatch true buf pos range code count = direct_bits_dispatch false buf pos range code count.
+Proof. intros. rewrite !direct_bits_dispatch_eq by assumption. reflexivity. Qed.
+
+(* The hypothesis on range is needed: for range < 2^16 (never reached by a decoder) the loop in
+   the Rust source normalises more than once per bit, the assembly exactly once. *)
+Theorem direct_bits_small_range_diverges :
+  exists buf pos range code count,
+    0 <= pos /\ pos + count <= zlen buf /\ 0 < range < 65536 /\ 1 <= count /\
+    (direct_bits_dispatch true buf pos range code count <> direct_bits_dispatch false buf pos range code count).
+Proof.
+  exists [0; 0; 0; 0], 0, 1, 0, 1. split; [lia|]. split; [vm_compute; discriminate|]. split; [lia|]. split; [lia|].
+  vm_compute. intro H. discriminate H.
 Qed.
 
 (* ---- aarch64 (modelled only) ----------------------------------------------------------------- *)
